@@ -723,6 +723,64 @@ fn gen_raw(rng: &mut Rng, tier: Tier) -> Raw {
         files = vec![(true, lines)];
         plateau_k = k;
     }
+    // long-tail stream: a few frequent words whose occurrences are spread thinly over the lines, separated by bursts of
+    // many distinct words that occur once, and a small max_size (1..3): more than 16 * max_size distinct candidates
+    // reach the reducer between two occurrences of the frequent words (a reducer that bounds its memory by dropping
+    // rare candidates early loses counts here; so does a top-k that is applied to partial counts)
+    let longtail = !edge && !plateau && rng.chance(1, 40);
+    let mut longtail_k = 0usize;
+    if longtail {
+        let k = rng.range(1, 4);
+        let heads = ["a", "b", "ab"];
+        let mut hapax = 0usize;
+        let mut lines: Vec<String> = vec![];
+        let rounds = rng.range(3, 6);
+        for r in 0..rounds {
+            // the frequent words, once or twice
+            let mut l = String::new();
+            for h in heads.iter().take(k) {
+                for _ in 0..(1 + (r % 2)) {
+                    if !l.is_empty() {
+                        l.push(' ');
+                    }
+                    l.push_str(h);
+                }
+            }
+            lines.push(l);
+            // a burst of words that occur once: "h" + two letters, all different
+            let burst = 17 * k + rng.below(8);
+            let per_line = rng.range(6, 30);
+            let mut l = String::new();
+            for _ in 0..burst {
+                if !l.is_empty() {
+                    l.push(' ');
+                }
+                let (x, y) = (hapax / 26 % 26, hapax % 26);
+                l.push('h');
+                l.push((b'a' + x as u8) as char);
+                l.push((b'a' + y as u8) as char);
+                if hapax >= 676 {
+                    l.push('h');
+                }
+                hapax += 1;
+                if l.split(' ').count() >= per_line {
+                    lines.push(std::mem::take(&mut l));
+                }
+            }
+            if !l.is_empty() {
+                lines.push(l);
+            }
+        }
+        let cut = rng.below(lines.len());
+        let rest = lines.split_off(cut);
+        files = if lines.is_empty() || rng.chance(1, 2) {
+            lines.extend(rest);
+            vec![(true, lines)]
+        } else {
+            vec![(true, lines), (rng.chance(1, 2), rest)]
+        };
+        longtail_k = k;
+    }
     // the bytes on disk; outside the plateau stream one file in four gets a byte-level decoration
     let mut files: Vec<Vec<u8>> = files.iter().map(|(nl, lines)| join_lines(lines, *nl)).collect();
     if !plateau {
@@ -744,6 +802,7 @@ fn gen_raw(rng: &mut Rng, tier: Tier) -> Raw {
         _ => Some(1usize << 61),
     };
     let max_size = if plateau { Some(rng.range(1, plateau_k - 1)) } else { max_size };
+    let (chars, cg, max_size) = if longtail { (false, 1, Some(longtail_k)) } else { (chars, cg, max_size) };
     let max_seq = match rng.below(12) {
         0..=5 => None,
         6 => Some(0),
@@ -765,7 +824,7 @@ fn gen_raw(rng: &mut Rng, tier: Tier) -> Raw {
         14..=15 => vec![rng.below(5), rng.below(5)],
         _ => vec![rng.below(5)],
     };
-    let max_seq = if plateau { None } else { max_seq };
+    let max_seq = if plateau || longtail { None } else { max_seq };
     let threads = if plateau && threads.len() < 2 { vec![0, 2, 0] } else { threads };
     let arr = (0..rng.below(total + 2)).map(|_| rng.below(64)).collect();
     let hp = (0..rng.below(24)).map(|_| rng.below(64)).collect();
@@ -945,6 +1004,9 @@ impl Prop for C20 {
         }
         if std::str::from_utf8(&r.dfile).is_err() {
             tags.push("dfile-invalid".into());
+        }
+        if !r.chars && r.max_size.map_or(false, |k| (1..=3).contains(&k)) && r.files.iter().any(|fb| fb.windows(3).any(|w| w == b"haa")) {
+            tags.push("longtail".into());
         }
         if let Some(d) = &first {
             let n = d.len();
